@@ -152,6 +152,16 @@ def block_cases(tier):
                                 if tier == "quick" and (trail + eol != "\n" or ind) and (w, sem) != (88, False):
                                     continue
                                 cases.append((o, c, bname, kind, isrc, dict(width=w, semantic=sem, cleanups=False)))
+    # the same blocks inside a block quote: the re-separation must not split the quote
+    for (o, c) in TAGPAIRS:
+        for bname, body, kind in BODIES:
+            if bname == "tasks":
+                continue
+            inner = f"Intro paragraph.\n\n{o}\n{body}\n{c}\n\nOutro paragraph."
+            qsrc = "\n".join(("> " + l) if l else ">" for l in inner.split("\n")) + "\n"
+            for w in ((88,) if tier == "quick" else (20, 88)):
+                for sem in (False, True):
+                    cases.append((o, c, bname + "@quote", kind, qsrc, dict(width=w, semantic=sem, cleanups=False)))
     return cases
 
 
@@ -165,6 +175,10 @@ def _observe_block(job):
         return dict(exc=repr(e))
     lines = out.split("\n")
     res = dict(out=out, idem=out == out2)
+    if bname.endswith("@quote"):
+        tree = project.parse_marko(out)
+        res["one_quote"] = [k[0] for k in tree[1]] == ["quote"]
+        lines = [l[2:] if l.startswith("> ") else l[1:] if l.startswith(">") else l for l in lines]
     res["open_alone"] = o in lines
     res["close_alone"] = c in lines
     flat = project.flat(project.parse_marko(out))
@@ -282,8 +296,12 @@ def run(tier: str) -> int:
         if "exc" in r:
             chk.violation("NoException", dict(m, exc=r["exc"]))
             continue
-        fails = [n for n, v in (("TagLineAlone", r["open_alone"] and r["close_alone"]), ("BlockStaysBlock", r["has_block"]),
-                                ("BlankLineSeparated", r["separated"])) if not v]
+        if job[2].endswith("@quote"):
+            # the promise about tag lines is for unindented lines; inside a quote only the quote itself is at stake
+            fails = [] if r["one_quote"] else ["QuoteStaysOneQuote"]
+        else:
+            fails = [n for n, v in (("TagLineAlone", r["open_alone"] and r["close_alone"]), ("BlockStaysBlock", r["has_block"]),
+                                    ("BlankLineSeparated", r["separated"])) if not v]
         if fails:
             chk.violation("+".join(fails), m)
     for id_ in list(metas)[:: max(1, len(metas) // 3)][:3]:
